@@ -673,7 +673,7 @@ def instantiate(ex, state, cls, args, kwargs):
         ex.notes["assumed"].add("exception constructor %s not executed (args stored)" % addr)
         return ref
     # constructors are inlined by default when small (record-like classes)
-    if sum(1 for _ in ast.walk(m)) < ex.reg.ctor_inline_limit:
+    if sum(1 for _ in ast.walk(m)) < ex.reg.ctor_inline_limit or (cur is not None and addr in cur.inline_calls):
         inline_call(ex, state, fv, args, kwargs)
         return ref
     return unknown_call(ex, state, addr, args, kwargs, ref)
